@@ -82,12 +82,21 @@ func CmdCheck(args []string) int {
 	verbose := fs.Bool("v", false, "")
 	noReplay := fs.Bool("no-replay", false, "skip native replay of counterexamples (debugging)")
 	only := fs.String("only", "", "run only this entry function (debugging)")
-	fs.Parse(args)
-	if fs.NArg() < 1 {
+	// flags may come before or after the property id
+	var positional []string
+	for rest := args; len(rest) > 0; {
+		fs.Parse(rest)
+		if fs.NArg() == 0 {
+			break
+		}
+		positional = append(positional, fs.Arg(0))
+		rest = fs.Args()[1:]
+	}
+	if len(positional) < 1 {
 		fmt.Fprintln(os.Stderr, "usage: verif check [--tier quick|thorough] <property id>")
 		return 2
 	}
-	id := fs.Arg(0)
+	id := positional[0]
 	if *tier == "" {
 		*tier = os.Getenv("VERIF_TIER")
 	}
@@ -251,7 +260,10 @@ func CmdCheck(args []string) int {
 			problems = append(problems, fmt.Sprintf("%s: %d path(s) ended in an uncaught panic: %s", e.Func, n, msg))
 		}
 		// violations
-		newByLabel := map[string]int{}
+		// group new violations by assertion label; per label up to 5 different witnesses are replayed
+		// natively until one reproduces (a witness can depend on the symbolic clock and not replay)
+		byLabel := map[string][]int{}
+		var labelOrder []string
 		for i, v := range rep.Violations {
 			if v.Known != "" {
 				if !knownPrinted[v.Known] {
@@ -260,33 +272,53 @@ func CmdCheck(args []string) int {
 				}
 				continue
 			}
-			newByLabel[v.Label]++
-			if newByLabel[v.Label] > 1 {
-				continue
+			if len(byLabel[v.Label]) == 0 {
+				labelOrder = append(labelOrder, v.Label)
 			}
-			rf := ReplayFile{Property: id, Pkg: e.Pkg, Func: e.Func, Label: v.Label, Nondet: v.Nondet, Bounds: bounds,
-				Decisions: v.Decisions, Observed: v.Observed, SyncFiles: e.SyncFiles}
-			dir := filepath.Join(VerifDir, "replays", id)
-			os.MkdirAll(dir, 0o755)
-			path := filepath.Join(dir, fmt.Sprintf("%s-%s-%d.json", e.Func, sanitize(v.Label), i))
-			data, _ := json.MarshalIndent(rf, "", " ")
-			os.WriteFile(path, data, 0o644)
-			confirmed := true
-			detail := ""
-			if !*noReplay {
-				replays++
-				confirmed, detail = NativeReplay(rf, path)
-				if confirmed {
-					replaysOK++
+			byLabel[v.Label] = append(byLabel[v.Label], i)
+		}
+		for _, label := range labelOrder {
+			cands := byLabel[label]
+			if len(cands) > 5 {
+				// spread the attempts over the explored paths
+				step := len(cands) / 5
+				cands = []int{cands[0], cands[step], cands[2*step], cands[3*step], cands[len(cands)-1]}
+			}
+			confirmed, detail, firstPath := false, "", ""
+			for _, i := range cands {
+				v := rep.Violations[i]
+				rf := ReplayFile{Property: id, Pkg: e.Pkg, Func: e.Func, Label: v.Label, Nondet: v.Nondet, Bounds: bounds,
+					Decisions: v.Decisions, Observed: v.Observed, SyncFiles: e.SyncFiles}
+				dir := filepath.Join(VerifDir, "replays", id)
+				os.MkdirAll(dir, 0o755)
+				path := filepath.Join(dir, fmt.Sprintf("%s-%s-%d.json", e.Func, sanitize(v.Label), i))
+				data, _ := json.MarshalIndent(rf, "", " ")
+				os.WriteFile(path, data, 0o644)
+				if firstPath == "" {
+					firstPath = path
+				}
+				ok, d := true, ""
+				if !*noReplay {
+					replays++
+					ok, d = NativeReplay(rf, path)
+				}
+				if ok {
+					if !*noReplay {
+						replaysOK++
+					}
+					confirmed = true
+					violations++
+					fmt.Printf("VIOLATION property=%s replay=%s\n", id, path)
+					fmt.Printf("  assertion %q fails in %s; witness: %s\n", v.Label, e.Func, witnessString(v))
+					break
+				}
+				if detail == "" {
+					detail = d
 				}
 			}
-			if confirmed {
-				violations++
-				fmt.Printf("VIOLATION property=%s replay=%s\n", id, path)
-				fmt.Printf("  assertion %q fails in %s; witness: %s\n", v.Label, e.Func, witnessString(v))
-			} else {
-				problems = append(problems, fmt.Sprintf("%s: counterexample for %q did not reproduce natively (%s) — encoding or stub suspected; replay file %s", e.Func, v.Label, detail, path))
-				fmt.Printf("UNCONFIRMED property=%s label=%s replay=%s (%s)\n", id, v.Label, path, detail)
+			if !confirmed {
+				problems = append(problems, fmt.Sprintf("%s: counterexample for %q did not reproduce natively (%s; %d witnesses tried) — encoding or stub suspected; replay file %s", e.Func, label, detail, len(cands), firstPath))
+				fmt.Printf("UNCONFIRMED property=%s label=%s replay=%s (%s)\n", id, label, firstPath, detail)
 			}
 		}
 		stMax := 3
